@@ -118,29 +118,31 @@ Applicable(op, x, y) ==
   CASE op \in {"Add", "Sub", "MinElem"} -> x.sh = y.sh
     [] op = "DivFood" -> x.sh = y.sh /\ NoZero(y)
     \* (two ratios with different suffixes have no documented product: outside the domain)
-    \* Named limitation ScalarTimesRatioSeriesNotImplemented: the code refuses (with the message "consider
-    \* implementing this feature") a single non-ratio quantity times a series of ratios; a refusal labels nothing
-    \* wrongly, so that combination is outside the domain too.
-    [] op = "MulFood" -> /\ ~(IsRatio(x) /\ IsRatio(y) /\ x.sh = "S" /\ y.sh = "S" /\ x.suf # y.suf)
-                         /\ ~(x.sh = "S" /\ y.sh = "L" /\ ~IsRatio(x) /\ IsRatio(y))
-                         /\ ~(x.sh = "L" /\ y.sh = "S" /\ ~IsRatio(y) /\ IsRatio(x))
+    [] op = "MulFood" -> ~(IsRatio(x) /\ IsRatio(y) /\ x.sh = "S" /\ y.sh = "S" /\ x.suf # y.suf)
     [] op \in Unary -> TRUE
     [] op = "Round" -> x.sh = "L" /\ \A i \in 1..3 : \A m \in 1..NM : x.n[i][m][2] = 1
     [] op \in SeriesOps -> x.sh = "L"
     [] op = "MulArr" -> x.sh = "S" /\ x.suf = ""
     [] OTHER -> FALSE
 
+\* Named limitation ScalarTimesRatioSeriesNotImplemented: the code refuses (with the message "consider implementing
+\* this feature") a single non-ratio quantity times a series of ratios.  A refusal labels nothing wrongly, so for that
+\* combination the implementation may either refuse or return the documented product -- but nothing else.
+MayRefuse(op, x, y) ==
+  op = "MulFood" /\ (\/ (x.sh = "S" /\ y.sh = "L" /\ ~IsRatio(x) /\ IsRatio(y))
+                     \/ (x.sh = "L" /\ y.sh = "S" /\ ~IsRatio(y) /\ IsRatio(x)))
+
 \* ------------------------------------------------------------------ machine
 Init == a \in Universe /\ b \in Universe /\ depth = 0
 
-Emitted(op, r) == Emit => PrintT(ToJson([op |-> op, x |-> a, y |-> b, r |-> r]))
+Emitted(op, r) == Emit => PrintT(ToJson([op |-> op, x |-> a, y |-> b, r |-> r, mayRefuse |-> MayRefuse(op, a, b)]))
 
 Apply(op) ==
   /\ depth < MaxDepth
   /\ Applicable(op, a, b)
   /\ LET r == Result(op, a, b) IN
        /\ Emitted(op, r)
-       /\ a' = IF r = Reject THEN a ELSE r
+       /\ a' \in (IF r = Reject THEN {a} ELSE IF MayRefuse(op, a, b) THEN {a, r} ELSE {r})
        /\ b' \in (IF depth + 1 < MaxDepth THEN Universe ELSE {b})
        /\ depth' = depth + 1
 
